@@ -4,6 +4,7 @@ specification owes at that instant.  stdlib-only; runs under CPython 3.9 .. 3.12
 
 usage: runner_min.py <programs.json> <behaviours.json> <out.json> <mode> [shard i n]
 mode: "suspended" (C01, C08), "referents" (C20), "running" (C02), "purity" (C06)"""
+import contextlib
 import gc
 import json
 import os
@@ -76,6 +77,7 @@ class Env:
         self.d = {"n": {}}
         self.lst = [None]
         self.prog_frame = None
+        self.pid = beh.get("pid", 0)
 
     # ---- program services
     def c(self):
@@ -112,6 +114,8 @@ class Env:
                 # aliased enter/exit methods; not in the fallback modes: the referents implementation recognises exit
                 # methods by their function name, a documented limitation outside C20's program space
                 cls = AM2 if self.r.is_async[i] else M2
+            elif (i + self.pid) % 5 == 0 and not self.r.is_async[i]:
+                cls = ES        # an ExitStack (its glue hook elaborates the Context: obj / varname / start_line must survive)
             elif i % 4 == 1 and self.r.is_async[i]:
                 cls = AM3       # plain-def __aenter__/__aexit__ returning an awaitable: `async with` is decided by the statement
             else:
@@ -231,6 +235,9 @@ def _reentrant_elaborate(mgr, context):
     documentation of unwrap_context_generator suggests hooks may): the enclosing extraction must carry on with its own
     options afterwards"""
     stackscope.extract_outermost(_PARKED, with_contexts=False, recurse_child_tasks=True)
+    # ... and resolves a callable bound to the target's manager, as a hook about to register something would: the
+    # library may remember the code object, not the bound method (and with it the manager)
+    lowlevel.get_code(getattr(mgr, "__exit__", None) or mgr.__aexit__)
 
 
 stackscope.elaborate_context.register(M)(_reentrant_elaborate)
@@ -259,6 +266,37 @@ class AM2(AM):
 
     __aenter__ = _acome
     __aexit__ = _aleave
+
+
+class ES(contextlib.ExitStack):
+    """an ExitStack that follows the specification's event protocol like M does"""
+
+    def __init__(self, env, i, shape):
+        super().__init__()
+        self.env, self.i, self.shape = env, i, shape
+        self.callback(divmod, 7, 2)
+
+    def __bool__(self):
+        return False
+
+    def __enter__(self):
+        ev = self.env.expect("enter", self.i)
+        self.env.inner_probe(ev, "enter", None)
+        if self.env.r.enter_raises[self.i]:
+            self.env.expect("enter_raised", self.i)
+            raise Boom()
+        self.env.expect("entered", self.i)
+        super().__enter__()
+        return build_value(self.shape, self)
+
+    def __exit__(self, *exc):
+        ev = self.env.expect("exit", self.i, "raise" if exc[0] is not None else "other")
+        self.env.inner_probe(ev, "exit", None)
+        self.env.expect("exited", self.i)
+        super().__exit__(*exc)
+        if self.env.r.exit_raises[self.i]:
+            raise Boom()
+        return self.i % 3 == 0
 
 
 class AM3(AM):
